@@ -11,7 +11,10 @@ from ..alphabet import session_messages
 
 PROP = 'C17'
 M = session_messages()
-EST = [('TICK', 0), ('CONN_OK', 0), ('RX', 0, 'OPEN_OK'), ('RX', 0, 'KA')]
+# the operator polls the state while the agent is still Idle (what the API answers then must not stick), then the session comes up
+M = dict(M)
+M['@early_poll'] = ('GET', '/v1/peer/<ip>/state', None)
+EST = [('REST', 'early_poll'), ('TICK', 0), ('CONN_OK', 0), ('RX', 0, 'OPEN_OK'), ('RX', 0, 'KA')]
 U16 = (0, 1, 255, 256, 65535)
 U32 = (0, 1, 65535, 65536, 2 ** 31, 2 ** 32 - 1)
 AS4 = (65536, 2 ** 31, 2 ** 32 - 1, 1, 65535)
